@@ -487,6 +487,30 @@ impl C04 {
                         return;
                     }
                 }
+                // (g) an account of a genuine token program that is not a token account: multisig-sized (355 bytes), its
+                // bytes reading "one token of the position mint, held by the attacker" (a multisig's signer list is free
+                // text for whoever creates it)
+                for (gi, prog) in [ix::tok(), ix::tok22()].iter().enumerate() {
+                    let mut f = base.clone();
+                    let mut d = vec![0u8; 355];
+                    d[0..32].copy_from_slice(t.mint.as_ref());
+                    d[32..64].copy_from_slice(attacker.as_ref());
+                    d[64..72].copy_from_slice(&1u64.to_le_bytes());
+                    d[108] = 1;
+                    d[165] = 2;
+                    f.put(fake, Account::new(world::rent_min(355), d, *prog));
+                    let mut ixn = v.ix.clone();
+                    ixn.accounts[i].pubkey = attacker;
+                    ixn.accounts[i].is_signer = true;
+                    ixn.accounts[ti].pubkey = fake;
+                    let r = exec(&f, ixn);
+                    cov.eval(format!("{}|{}|multisig_sized_account{}", name, slot, gi));
+                    self.cell(format!("{} / {} / multisig-sized account of a token program shaped like a token account", name, slot), !r.ok);
+                    if r.ok {
+                        out.push(v04("forged_token_account_accepted", idx, format!("{}: succeeded for a multisig-sized (355-byte) account of {} shaped like the attacker's position token account", name, prog)));
+                        return;
+                    }
+                }
             }
         }
         // initialize_config: the funder must be an admin key
